@@ -368,7 +368,7 @@ impl Check for PathProp {
         self.id
     }
     fn rule(&self) -> String {
-        let common = "scenario i is generated from mix(VERIF_SEED, property, i): one of six space kinds (random bounds, weights, resolution fractions), a world family, a problem, a planner with random parameters and seed, a virtual-clock cost pattern and a deadline placement; distinct = distinct scenario hash; ";
+        let common = "scenario i is generated from mix(VERIF_SEED, property, i): one of six space kinds (random bounds, weights, resolution fractions), a world family, a problem, a planner with random parameters and seed, a virtual-clock cost pattern and a deadline placement; swarm variations per scenario: obstacles / goal measured by the library's or the harness's own metric, kept or freshly built problem-definition objects, a second listed start state, public parameter fields assigned after setup, pure-translation and already-there tasks, degenerate parameters (step or radius 0, single-state goals, thin boxes, up to 8 dimensions, compounds without any weight), harvest histories (goal = whole space, many solves on the kept tree) and PRM harvest (one replaced problem per milestone), scripted lattice / dyadic / alphabet samples; distinct = distinct scenario hash; ";
         let nt = match self.id {
             "C01" => "non-trivial = a solve call returned a path, or the checker rejects the start state (the invalid-start clause is exercised)",
             "C02" => "non-trivial = a solve call returned a path (so the endpoint clauses were evaluated), in a history with the generated setup / re-setup / problem replacement / repeated-solve calls",
